@@ -128,6 +128,7 @@ impl Outs {
 }
 
 /// Outcome of running the implementation on a case.
+#[derive(Clone)]
 pub enum Outcome {
     Ok(Outs),
     Err(i64, String),
